@@ -632,9 +632,11 @@ func (c *checker) retryCase(cfg compCfg, kind, fault string, idx int, tc *tcase)
 	var wantMap map[string]*ref.Series
 	var wantEv evFields
 	sent := false
+	t0 := time.Now()
 	if kind == "map" {
 		mm := buildMap(tc)
 		wantMap = ref.FromMap(mm)
+		t0 = time.Now()
 		sent = u.sendMap(mm)
 	} else {
 		wantEv = tc.Ev.fields()
@@ -644,9 +646,19 @@ func (c *checker) retryCase(cfg compCfg, kind, fault string, idx int, tc *tcase)
 		r.Inconclusive("forwarder-flush-watchdog")
 		return
 	}
-	if timedOut(u.rec.snapshot()) {
+	recs := u.rec.snapshot()
+	if timedOut(recs) {
 		r.Inconclusive("forwarder-client-timeout")
 		return
+	}
+	// The forwarder's 3 s retry window is real time. It must try again only if the failed first attempt came back
+	// well inside it; judged on the recorded bracket [dispatch, first round trip returned to the forwarder]. On a
+	// stalled machine the window may legitimately be over: then the case says nothing.
+	if len(recs) == 0 || recs[0].At.Sub(t0) >= time.Second {
+		if len(fr.attempts()) < 2 {
+			r.Inconclusive("retry-first-attempt-slow")
+			return
+		}
 	}
 	r.Eval(1)
 	r.Event("retry_cases", 1)
